@@ -20,7 +20,7 @@ Ltac split_checks :=
 
 Theorem validation_pure rq d e e2 : rejected rq d = true -> exec (program rq d e e2) = ([], true).
 Proof.
-  destruct rq as [sreq pon fr | fr | sreq pon hn fr | cols fcols]; unfold rejected, program.
+  destruct rq as [sreq pon fr | fr | sreq pon hn fr | cols fcols | same]; unfold rejected, program.
   - destruct (scheme_name_ok sreq); cbn [negb orb app exec]; [|reflexivity].
     destruct (bytes_eqb sreq s_simple); cbn [app exec].
     + destruct (scheme_eqb (d_scheme d) SSimple || scheme_eqb (d_scheme d) SEmpty); cbn [negb orb exec]; [|reflexivity].
@@ -46,12 +46,13 @@ Proof.
       destruct (forallb (fun b => b) (f_typed fr)); cbn [negb exec]; [discriminate | reflexivity].
   - destruct (subset_b cols (d_cols d ++ d_cats d)); cbn [negb orb exec]; [|reflexivity].
     destruct (subset_b fcols (d_cols d ++ d_cats d)); cbn [negb exec]; [discriminate | reflexivity].
+  - destruct same; cbn [negb exec]; [discriminate | reflexivity].
 Qed.
 
 (* ... and an operation that passes validation reaches its effect stage (the model refuses nothing else) *)
 Definition after_validation (rq : request) (e e2 : list call * bool) : list call * bool :=
   match rq with
-  | Append _ _ _ | PlainWrite _ _ _ _ => e
+  | Append _ _ _ | PlainWrite _ _ _ _ | Merge _ => e
   | Overwrite _ => if snd e then e else (fst e ++ fst e2, snd e2)
   | Read _ _ => ([], false)
   end.
@@ -62,7 +63,7 @@ Proof. destruct b; cbn; [reflexivity | now rewrite app_nil_r]. Qed.
 Theorem validation_pass rq d e e2 : rejected rq d = false -> exec (program rq d e e2) = after_validation rq e e2.
 Proof.
   destruct e as [cs b], e2 as [cs2 b2].
-  destruct rq as [sreq pon fr | fr | sreq pon hn fr | cols fcols]; unfold rejected, program, after_validation; cbn [fst snd].
+  destruct rq as [sreq pon fr | fr | sreq pon hn fr | cols fcols | same]; unfold rejected, program, after_validation; cbn [fst snd].
   - destruct (scheme_name_ok sreq); cbn [negb orb app exec]; [|discriminate].
     destruct (bytes_eqb sreq s_simple); cbn [app exec].
     + destruct (scheme_eqb (d_scheme d) SSimple || scheme_eqb (d_scheme d) SEmpty); cbn [negb orb exec]; [|discriminate].
@@ -89,6 +90,7 @@ Proof.
       destruct (forallb (fun b => b) (f_typed fr)); cbn [negb]; [|discriminate]. intros _. apply exec_eff_last.
   - destruct (subset_b cols (d_cols d ++ d_cats d)); cbn [negb orb exec]; [|discriminate].
     destruct (subset_b fcols (d_cols d ++ d_cats d)); cbn [negb exec]; [reflexivity | discriminate].
+  - destruct same; cbn [negb]; [|discriminate]. intros _. apply exec_eff_last.
 Qed.
 
 (* whatever happens, a Read issues no file-changing call at all *)
